@@ -192,14 +192,21 @@ DEFAULT_VECTOR = {
 
 
 def read_params(obj):
-    """Value vector of a bempp parameter object."""
-    return {"%s.%s" % (a, b): getattr(getattr(obj, a), b) for a, b in PARAM_FIELDS}
+    """Value vector of a bempp parameter object (fields a refactoring removed are skipped)."""
+    out = {}
+    for a, b in PARAM_FIELDS:
+        grp = getattr(obj, a, None)
+        if grp is not None and hasattr(grp, b):
+            out["%s.%s" % (a, b)] = getattr(grp, b)
+    return out
 
 
 def write_params(obj, vector):
     for key, val in vector.items():
         a, b = key.split(".")
-        setattr(getattr(obj, a), b, val)
+        grp = getattr(obj, a, None)
+        if grp is not None and hasattr(grp, b):
+            setattr(grp, b, val)
 
 
 def new_params(vector):
